@@ -192,7 +192,7 @@ def reference(kind, name, seed):
 
 def events_for(kind, subset):
     nop = "NOPAR"
-    ev = [("add", n) for n in subset] + [("add", nop)]
+    ev = [("add", n) for n in subset] + [("add", nop), ("add2", subset[1], subset[2])]
     ev += [("run", n) for n in subset] + [("run", nop), ("runall",)]
     ev += [("mpe", n) for n in subset] + [("saveload",), ("decoy",)]
     return ev
@@ -229,8 +229,13 @@ def run_history(kind, subset, events, hist, seed, scratch, judge_all=False):
             if ev[0] == "add":
                 a = noparam(kind, nop_cls, "NOPAR") if ev[1] == "NOPAR" else make(kind, ev[1], shared)
                 ss.add_algorithms(a)
+            elif ev[0] == "add2":
+                ss.add_algorithms(make(kind, ev[1], shared), make(kind, ev[2], shared))     # several algorithms in one call
             elif ev[0] == "run":
-                ss.run_by_name(ev[1])
+                if step % 2:
+                    ss.run_by_name(name=ev[1])
+                else:
+                    ss.run_by_name(ev[1])
             elif ev[0] == "runall":
                 ss.run_all()
             elif ev[0] == "mpe":
@@ -260,6 +265,9 @@ def run_history(kind, subset, events, hist, seed, scratch, judge_all=False):
                 model[ev[1]] = "added"
             else:
                 model[ev[1]] = "added"
+        elif ev[0] == "add2":
+            model[ev[1]] = "added"
+            model[ev[2]] = "added"
         elif ev[0] == "run":
             if ev[1] not in model or ev[1] == "NOPAR":
                 expect_exc = True
@@ -553,7 +561,7 @@ def explore(ctx):
     finally:
         shutil.rmtree(scratch, ignore_errors=True)
     ctx.require("ok:add", "ok:run", "ok:runall", "ok:mpe", "saveload-equal", "rejected:run:NOPAR", "rejected:run:absent",
-                "rejected:mpe:ok", "rejected:runall:ok", "ok:decoy", "poser-accepted", "poser-rejected")
+                "rejected:mpe:ok", "rejected:runall:ok", "ok:decoy", "ok:add2", "poser-accepted", "poser-rejected")
 
 
 def replay(case):
